@@ -37,7 +37,9 @@ G = "src/earthkit/workflows/graph/"
 m("c01-kwargs-swallow", "C01", R, "        if isinstance(param_pos, str):\n            kwargs[param_pos] = value", "        if isinstance(param_pos, str):\n            kwargs.setdefault(param_pos, value)", "an upstream value no longer overrides a static keyword")
 m("c01-ensure-off-by-one", "C01", R, "        idx = int(idx_str)\n        ensure(args, idx)\n        args[idx] = arg", "        idx = int(idx_str)\n        ensure(args, idx)\n        args[max(idx - 1, 0) if idx == 3 else idx] = arg", "static positional #3 lands on #2")
 m("c01-fetch-second-host-ignored", "C01", NOTIFY, "            state = consider_fetch(state, event.ds, host)", "            if event.transmit_idx is None or event.ds.output != \"1\":\n                state = consider_fetch(state, event.ds, host)", "harmless-looking filter; breaks nothing by itself (control)")
-m("c01-reverse-generator-outputs", "C01", R, "    outputs = list(task.definition.output_schema.items())\n    outputs.sort()", "    outputs = list(task.definition.output_schema.items())\n    outputs.sort(reverse=len(task.definition.output_schema) == 3)", "3-output tasks bind yields in reverse")
+m("c01-reverse-generator-outputs", "C01", R, "    outputs = list(task.definition.output_schema.items())\n", "    outputs = list(task.definition.output_schema.items())\n    if len(outputs) == 3:\n        outputs.reverse()\n", "3-output tasks bind yields in reverse")
+m("c10-sort-outputs-again", "C10", R, "    outputs = list(task.definition.output_schema.items())\n", "    outputs = sorted(task.definition.output_schema.items())\n", "generator outputs bound in key-sorted order again (the repaired defect)")
+m("c05-healthcheck-after-shutdown", "C05", EXEC, "                if self.terminating:\n                    # orderly shutdown: the children have just been stopped on purpose\n                    break\n", "", "health check runs again after an orderly shutdown (spurious ExecutorFailure; equivalent for C05)")
 # ---- C02 ------------------------------------------------------------------------------------------------
 m("c02-no-pop-computable", "C02", ASSIGN, "            component.computable.pop(task)\n            component.worker2task_values.remove(task)\n            remaining_t.remove(task)", "            component.worker2task_values.remove(task)\n            remaining_t.remove(task)", "task stays computable after assignment in the greedy branch")
 m("c02-idle-on-any-output", "C02", NOTIFY, "    return len(published) == len(definition.output_schema)", "    return len(published) >= 1", "worker re-becomes idle when *any* output is published")
@@ -144,6 +146,7 @@ m("c19-no-source-task-test", "C19", BUILD, "            if not source_task:\n   
 
 # Mutants that turned out not to break the property (kept for the record; the runner annotates them):
 EQUIVALENT = {
+    "c05-healthcheck-after-shutdown": "the spurious ExecutorFailure is sent after the run has returned and the controller has asked for the shutdown: no property speaks about it (observed in executor logs only)",
     "c01-fetch-second-host-ignored": "a filter on transfer-completion events of outputs named '1': the fetch was already queued by the worker's own notice -- no observable change",
     "c04-source-preparing": "ds2host keeps insertion order and the producer's host is always first and available once a consumer is computable, so the wider eligibility set never selects another host",
     "c10-static-left-in-place": "the upstream value overwrites the static string in runner.run -- no observable change",
